@@ -6,6 +6,8 @@ CONSTANTS
   CM = 8
   CO = 0
   CW = 0
+  Presences = {"none", "under", "over"}
+  SendOverLimitPresence = FALSE
 INVARIANTS PropInv
 PROPERTIES ExtractOK Progress
 CHECK_DEADLOCK FALSE
